@@ -10,6 +10,7 @@ import (
 
 	v1 "k8s.io/api/core/v1"
 	resourceapi "k8s.io/api/resource/v1"
+	"k8s.io/apimachinery/pkg/types"
 	"k8s.io/dynamic-resource-allocation/cel"
 	"k8s.io/dynamic-resource-allocation/structured"
 	k8sframework "k8s.io/kubernetes/pkg/scheduler/framework"
@@ -34,6 +35,10 @@ type draPlugin struct {
 	manager       k8sframework.SharedDRAManager
 	celCache      *cel.Cache
 	queueLabelKey string
+
+	// claims signalled to the shared DRA manager as pending allocation for the live bind requests of this
+	// session; the signals are withdrawn when the session closes
+	pendingClaimUIDs []types.UID
 }
 
 // +kubebuilder:rbac:groups="resource.k8s.io",resources=deviceclasses;resourceslices;resourceclaims,verbs=get;list;watch
@@ -144,7 +149,11 @@ func (drap *draPlugin) assumePendingClaim(claim *schedulingv1alpha2.ResourceClai
 	resources.UpsertReservedFor(updatedClaim, pod)
 	updatedClaim.Status.Allocation = claim.Allocation
 
-	return drap.manager.ResourceClaims().SignalClaimPendingAllocation(updatedClaim.UID, updatedClaim)
+	if err := drap.manager.ResourceClaims().SignalClaimPendingAllocation(updatedClaim.UID, updatedClaim); err != nil {
+		return err
+	}
+	drap.pendingClaimUIDs = append(drap.pendingClaimUIDs, updatedClaim.UID)
+	return nil
 }
 
 func (drap *draPlugin) preFilter(task *pod_info.PodInfo, job *podgroup_info.PodGroupInfo) error {
@@ -247,7 +256,19 @@ func (drap *draPlugin) deallocateHandlerFn(_ *framework.Session) func(event *fra
 	}
 }
 
-func (drap *draPlugin) OnSessionClose(_ *framework.Session) {}
+// OnSessionClose withdraws the pending-allocation signals of this session. The DRA manager is shared by all
+// sessions and nothing else removes them: a device promised by a bind request would stay taken (and its pod
+// refused as "in the process of being allocated") after the request failed terminally, was deleted with its
+// node, or its pod went away. The next session signals again whatever is still in flight.
+func (drap *draPlugin) OnSessionClose(_ *framework.Session) {
+	if !drap.enabled || drap.manager == nil {
+		return
+	}
+	for _, claimUID := range drap.pendingClaimUIDs {
+		drap.manager.ResourceClaims().RemoveClaimPendingAllocation(claimUID)
+	}
+	drap.pendingClaimUIDs = nil
+}
 
 func (drap *draPlugin) allocateResourceClaim(task *pod_info.PodInfo, podClaim *v1.PodResourceClaim, node *v1.Node) error {
 	claimName, err := resources.GetResourceClaimName(task.Pod, podClaim)
